@@ -135,6 +135,32 @@ func refResidue(all []string, p presult) string {
 // values and returns a message on mismatch.
 func keyFields(proj *Projection, key Key, expr string, all []string, p presult) string {
 	cfgKeys, nameKeys := specifics(all)
+	// completeness of the flattened view: every named field, and every file key this result configures (specific
+	// keys excluded) under a group, is among the flattened fields — and a key with a non-empty value prints it
+	flat := map[string]bool{}
+	for _, f := range proj.FlattenedFields() {
+		flat[f.Name] = true
+	}
+	nonEmpty := false
+	for _, top := range proj.Fields() {
+		if !top.IsTuple {
+			if !flat[top.Name] {
+				return fmt.Sprintf("projection %q: field %q is missing from FlattenedFields", expr, top.Name)
+			}
+			continue
+		}
+		for _, c := range p.Cfg {
+			if c[2] == "f" && !cfgKeys[c[0]] && c[1] != "" {
+				nonEmpty = true
+				if !flat[c[0]] {
+					return fmt.Sprintf("projection %q after projecting %v: the file key %q of this result is missing from FlattenedFields (%d flattened fields)", expr, p, c[0], len(flat))
+				}
+			}
+		}
+	}
+	if nonEmpty && key.String() == "" {
+		return fmt.Sprintf("projection %q on %v: Key.String() is empty although the key has non-empty values", expr, p)
+	}
 	for _, f := range proj.FlattenedFields() {
 		var want string
 		switch {
